@@ -22,7 +22,10 @@ AvInit == [mem |-> BmInit,
            wl |-> 0, wa |-> 0,                 \* write burst: beats still to come, address of the next beat
            rq |-> <<>>,                        \* outstanding reads: [a, left, be, cells]
            hold |-> FALSE, cmd |-> <<>>,       \* command beat being held against waitrequest
+           gapw |-> FALSE,                     \* diagnostic context only: an idle gap inside a write burst has occurred
            dumped |-> {}]
+
+AvCtx(s) == IF s.gapw THEN "after-gap-in-write-burst" ELSE "plain"
 
 AvBase(cfg, a) == (a - cfg.base) * cfg.ab
 AvCmd(e) == [rd |-> e.rd, wr |-> e.wr, a |-> e.a, bc |-> e.bc, be |-> e.be, d |-> IF e.wr = 1 THEN e.d ELSE <<>>]
@@ -46,8 +49,8 @@ AvStep(cfg, s, e, gap) ==     \* -> [s, bad, tags]
         hd   == IF hasR THEN Head(s.rq) ELSE [a |-> 0, left |-> 0, be |-> <<>>, cells |-> <<>>]
         rb   == AvBase(cfg, hd.a)
         wrongR == IF e.rdv = 1 /\ hasR THEN {k \in BmSel(cfg.ab, hd.be) : e.q[k + 1] \notin hd.cells[rb + k]} ELSE {}
-        badR == IF e.rdv = 1 /\ ~hasR THEN {<<"readdatavalid beat without an outstanding read">>}
-                ELSE {<<"read beat does not carry the addressed word", hd.a, k, e.q[k + 1], hd.cells[rb + k]>> : k \in wrongR}
+        badR == IF e.rdv = 1 /\ ~hasR THEN {<<"readdatavalid beat without an outstanding read", AvCtx(s)>>}
+                ELSE {<<"read beat does not carry the addressed word", AvCtx(s), hd.a, k, e.q[k + 1], hd.cells[rb + k]>> : k \in wrongR}
         rq1  == IF e.rdv = 1 /\ hasR
                 THEN (IF hd.left = 1 THEN Tail(s.rq) ELSE <<[hd EXCEPT !.a = hd.a + 1, !.left = hd.left - 1]>> \o Tail(s.rq))
                 ELSE s.rq
@@ -74,19 +77,20 @@ AvStep(cfg, s, e, gap) ==     \* -> [s, bad, tags]
     IN [s |-> [s EXCEPT !.mem = mem1, !.rq = rq2,
                         !.wl = IF isW THEN (IF first THEN e.bc - 1 ELSE s.wl - 1) ELSE s.wl,
                         !.wa = IF isW THEN wAddr + 1 ELSE s.wa,
-                        !.hold = active /\ e.wait = 1, !.cmd = AvCmd(e)],
+                        !.hold = active /\ e.wait = 1, !.cmd = AvCmd(e),
+                        !.gapw = s.gapw \/ (s.wl > 0 /\ (gap \/ e.wr = 0))],
         bad |-> envH \cup envX \cup envR \cup envC \cup badR, tags |-> tags]
   [] e.c = "TIMEOUT" ->
        [s |-> [s EXCEPT !.rq = <<>>, !.wl = 0, !.hold = FALSE],
-        bad |-> IF s.hold THEN {<<"command never accepted (waitrequest stuck) within the bound", IF s.cmd.wr = 1 THEN "write" ELSE "read", IF s.wl > 0 THEN "inside-burst" ELSE "first-beat">>}
-                ELSE IF s.rq # <<>> THEN {<<"read beats missing within the bound", Head(s.rq).a, Head(s.rq).left>>}
+        bad |-> IF s.hold THEN {<<"command never accepted (waitrequest stuck) within the bound", AvCtx(s), IF s.cmd.wr = 1 THEN "write" ELSE "read", IF s.wl > 0 THEN "inside-burst" ELSE "first-beat">>}
+                ELSE IF s.rq # <<>> THEN {<<"read beats missing within the bound", AvCtx(s), Head(s.rq).a, Head(s.rq).left>>}
                 ELSE {<<"ENV: TIMEOUT reported while nothing is outstanding">>},
         tags |-> {"timeout"}]
   [] e.c = "MEM" ->
        LET base == e.a * cfg.pb
            wrong == BmWrongLanes(s.mem, base, cfg.pb, BmAllOnes(cfg.pb), e.d) IN
        [s |-> [s EXCEPT !.dumped = s.dumped \cup {e.a}],
-        bad |-> {<<"final memory content is not what the accepted beats left", e.a, k, e.d[k + 1], BmGet(s.mem, base + k)>> : k \in wrong},
+        bad |-> {<<"final memory content is not what the accepted beats left", AvCtx(s), e.a, k, e.d[k + 1], BmGet(s.mem, base + k)>> : k \in wrong},
         tags |-> {"mem"}]
   [] e.c = "END" ->
        [s |-> s,
